@@ -14,6 +14,9 @@
 #include <unistd.h>
 #include <gmp.h>
 
+#ifndef LPV_CASE_TIMEOUT
+#define LPV_CASE_TIMEOUT 20
+#endif
 static uint64_t lpv_state;
 static long lpv_case = 0;
 static char lpv_cur[4096];
@@ -34,6 +37,7 @@ static inline void lpv_begin_case(uint64_t seed, long idx) {
   rnd64(); rnd64();
   lpv_case = idx;
   lpv_cur[0] = 0;
+  alarm(LPV_CASE_TIMEOUT);      /* watchdog: a case that does not finish is a result (hang) */
 }
 
 static void lpv_die_note(void) {
@@ -58,7 +62,16 @@ static void lpv_sig(int s) {
 #ifdef LPV_ASAN
 void __sanitizer_set_death_callback(void (*cb)(void));
 #endif
+static void lpv_alarm(int s) {
+  (void)s;
+  char buf[4300];
+  int n = snprintf(buf, sizeof buf, "#died case=%ld hang(>%ds) during: %s\n", lpv_case, LPV_CASE_TIMEOUT, lpv_cur);
+  fflush(stdout);
+  if (n > 0) { ssize_t w = write(1, buf, (size_t)n); (void)w; }
+  _exit(99);
+}
 static inline void lpv_init(void) {
+  signal(SIGALRM, lpv_alarm);
   signal(SIGABRT, lpv_sig);
   signal(SIGFPE, lpv_sig);
   signal(SIGSEGV, lpv_sig);
